@@ -1,27 +1,27 @@
 /-
   C12 — component handling (fontir/src/glyph.rs `GlyphOrderWork::exec` and helpers; fontbe/src/glyphs.rs
-  `create_component_ref_gid`).  Exact model over ℚ of ONE location of the designspace: an environment maps a glyph
+  `create_component_ref_gid`; line numbers are those of /repo at f65ff23).  Exact model over ℚ of ONE location of the designspace: an environment maps a glyph
   name to that glyph's instance at the location (the master drawn there, or the unrounded interpolation the code
-  computes with `get_or_instantiate_instance`, glyph.rs:509).
+  computes with `get_or_instantiate_instance`, glyph.rs:532).
 
   * `Affine`            kurbo::Affine ([a b c d e f], x' = a·x + c·y + e, y' = b·x + d·y + f; `comp` = kurbo `A * B`)
   * `resolveWith tr`    the full outline of a glyph through its components; `resolve` (= TrueType composite
                         semantics: transform the points) and `resolveO` (orientation-corrected: a contour whose
                         accumulated transform has a negative determinant is reversed, ufo2ft/fontc convention)
-  * `flattenInst`       flatten_glyph (glyph.rs:596)
-  * `decomposeInst`     convert_components_to_contours (glyph.rs:422), breadth first exactly like the VecDeque
-  * `inlineInst`        flatten_non_export_components_for_glyph (glyph.rs:289)
-  * `splitInst`         split_glyph / move_contours_to_new_component (glyph.rs:52, 569)
-  * `process`           the gating of GlyphOrderWork::exec (glyph.rs:822) + apply_optional_transformations (637)
+  * `flattenInst`       flatten_glyph (glyph.rs:619)
+  * `decomposeInst`     convert_components_to_contours (glyph.rs:445), breadth first exactly like the VecDeque
+  * `inlineInst`        flatten_non_export_components_for_glyph (glyph.rs:312)
+  * `splitInst`         split_glyph / move_contours_to_new_component (glyph.rs:52, 592)
+  * `process`           the gating of GlyphOrderWork::exec (glyph.rs:845) + apply_optional_transformations (660)
   * `storeComp`         fontbe/src/glyphs.rs:86 create_component_ref_gid (otRound offsets, F2Dot14 2×2)
 
   Recursion through components is by fuel; `Fits G rk` (a rank that strictly decreases along component edges) is
   the explicit acyclicity hypothesis of the theorems (FontcProps/C12.lean).  Core Lean only.
 
-  Not modelled (checked by the e2e oracle only): the `visited` set of convert_components_to_contours (glyph.rs:431),
+  Not modelled (checked by the e2e oracle only): the `visited` set of convert_components_to_contours (glyph.rs:454),
   which suppresses a second visit with identical (location, base, accumulated transform, enumeration index) — such a
   visit would emit an exact duplicate of contours already emitted; which *locations* an operation adds to or keeps
-  on a glyph (ensure_composite_defined_at_component_locations, glyph.rs:360).
+  on a glyph (ensure_composite_defined_at_component_locations, glyph.rs:383).
 -/
 import FontcModel.Basic
 
@@ -76,7 +76,7 @@ def Affine.apply (t : Affine) (p : Pt) : Pt := ⟨t.a * p.x + t.c * p.y + t.e, t
 /-- `BezPath::apply_affine`. -/
 def applyC (t : Affine) (c : Contour) : Contour := c.map t.apply
 
-/-- apply_affine followed by `reverse_subpaths` when the determinant is negative (glyph.rs:326-334, 468-477).
+/-- apply_affine followed by `reverse_subpaths` when the determinant is negative (glyph.rs:349-357, 491-500).
     Reversal is modelled as reversal of the point list (the start point kurbo keeps is immaterial: every
     comparison of drawings is modulo the start point). -/
 def orient (t : Affine) (c : Contour) : Contour := if t.det < 0 then (applyC t c).reverse else applyC t c
@@ -124,7 +124,7 @@ def resolveWith (tr : Affine → Contour → Contour) (G : Env) : Nat → String
 def resolve := resolveWith applyC
 
 /-- The same walk with the accumulated transform carried down (the form convert_components_to_contours uses:
-    `component_affine` is the product of the transforms on the path, glyph.rs:142, 451). -/
+    `component_affine` is the product of the transforms on the path, glyph.rs:142, 474). -/
 def resolveAcc (tr : Affine → Contour → Contour) (G : Env) : Nat → Affine → String → List Contour
   | 0, _, _ => []
   | fuel + 1, T, n =>
@@ -151,7 +151,7 @@ def SameDrawing (xs ys : List Contour) : Prop := ∃ zs, List.Perm xs zs ∧ Rev
 
 /-! ### The operations, one instance at a time -/
 
-/-- flatten_glyph's frontier loop for one component (glyph.rs:611-625): a component whose base has components
+/-- flatten_glyph's frontier loop for one component (glyph.rs:634-648): a component whose base has components
     is replaced, in place and depth first, by the base's components with composed transforms. -/
 def flattenComp (G : Env) : Nat → Comp → List Comp
   | 0, c => [c]
@@ -175,7 +175,7 @@ def childComps (G : Env) (c : Comp) : List Comp :=
   | none => []
   | some r => r.comps.map fun rc => ⟨rc.base, c.t.comp rc.t⟩
 
-/-- convert_components_to_contours' queue (glyph.rs:432-479), one breadth-first level per step: the frontier
+/-- convert_components_to_contours' queue (glyph.rs:455-502), one breadth-first level per step: the frontier
     holds (base, accumulated transform); every entry emits the base's contours under the accumulated transform
     (reversed when its determinant is negative) and enqueues the base's components behind the current level. -/
 def decomposeLevels (G : Env) : Nat → List Comp → List Contour
@@ -186,7 +186,7 @@ def decomposeLevels (G : Env) : Nat → List Comp → List Contour
 def decomposeInst (G : Env) (fuel : Nat) (i : Inst) : Inst :=
   { i with contours := i.contours ++ decomposeLevels G fuel i.comps, comps := [] }
 
-/-- flatten_non_export_components_for_glyph (glyph.rs:307-335): an exported component is kept; a non-exported
+/-- flatten_non_export_components_for_glyph (glyph.rs:330-358): an exported component is kept; a non-exported
     one is replaced by its components (composed) and its contours (transformed, reversed when det < 0) are
     appended to the glyph's contours. One level: the pass runs in depth order. -/
 def inlineContours (G : Env) (exported : String → Bool) (c : Comp) : List Contour :=
@@ -293,7 +293,7 @@ def depthOrder (G : Env) (names : List String) : List String :=
   let keyed := names.map fun n => (depth G names.length n, n)
   (keyed.mergeSort fun x y => x.1 < y.1 || (x.1 == y.1 && strLe x.2 y.2)).map (·.2)
 
-/-- flatten_all_non_export_components (glyph.rs:267). -/
+/-- flatten_all_non_export_components (glyph.rs:290). -/
 def inlineAll (exported : String → Bool) (names : List String) (gl : Glyphs) : Glyphs :=
   (depthOrder (Env.ofList gl) names).foldl (fun gl n =>
     let G := Env.ofList gl
@@ -335,7 +335,7 @@ def resolveInconsistencies (dfuel : Nat) : Nat → State → List (GlyphOp × St
     if below.any pending.contains then resolveInconsistencies dfuel fuel st (rest ++ [(op, n, orig)])
     else resolveInconsistencies dfuel fuel (applyFix dfuel st op n orig) rest
 
-/-- apply_optional_transformations (glyph.rs:637). -/
+/-- apply_optional_transformations (glyph.rs:660). -/
 def applyOptional (fl : Flags) (fuel : Nat) (st : State) : State :=
   let upd (st : State) (n : String) (f : Env → Inst → Option Inst) : State :=
     match st.env n with
@@ -354,7 +354,7 @@ def applyOptional (fl : Flags) (fuel : Nat) (st : State) : State :=
       st.order.foldl (fun st n => upd st n fun G i => if i.comps.isEmpty then none else some (flattenInst G fuel i)) st
     else st
 
-/-- GlyphOrderWork::exec (glyph.rs:822-944) at one location. `inconsistent n`: the glyph's component 2×2s vary
+/-- GlyphOrderWork::exec (glyph.rs:845-971) at one location. `inconsistent n`: the glyph's component 2×2s vary
     over the designspace (`has_consistent_components`, not visible at a single location). -/
 def process (fl : Flags) (exported : String → Bool) (inconsistent : String → Bool) (names : List String) (gl : Glyphs) : State :=
   let fuel := names.length + 2
@@ -362,13 +362,13 @@ def process (fl : Flags) (exported : String → Bool) (inconsistent : String →
   let gl1 := inlineAll exported names gl
   let G1 := Env.ofList gl1
   let order := names.filter exported
-  -- glyph.rs:866: components that are not retained force decomposition
+  -- glyph.rs:893: components that are not retained force decomposition
   let gl2 := order.foldl (fun gl n =>
     let G := Env.ofList gl
     match G n with
     | none => gl
     | some i => if i.comps.any (fun c => !order.contains c.base) then (n, decomposeInst G fuel i) :: gl else gl) gl1
-  -- glyph.rs:882: the todo list is computed on the glyphs as they were after inlining (`original_glyphs`)
+  -- glyph.rs:909: the todo list is computed on the glyphs as they were after inlining (`original_glyphs`)
   let todo : List (GlyphOp × String × Inst) := order.filterMap fun n =>
     match G1 n with
     | none => none
